@@ -1384,7 +1384,13 @@ def model_lines(case):
         elif k == "llib":
             lib0 = sh.layer(op[1])["lib"]
             lchanged = (op[2] in lib0) if op[3] is None else (op[2] not in lib0 or lib0[op[2]] != op[3])
+        elif k == "fguideattr":
+            # the guideline's setters are guarded: assigning the value it holds changes nothing and flags nothing
+            gls0 = sh.s.get("guidelines") or []
+            lchanged = op[1] < len(gls0) and gls0[op[1]][1 if op[2] == "y" else 3] != op[3]
         ok = sh.do(op) if k != "save" else True
+        if k == "fguideattr" and not lchanged:
+            ok = False
         if k in PART_OF_OP:
             part = PART_OF_OP[k]
             ln = [Atom("pquiet" if k == "fguideattr" else "pset"), Atom(part), blobs.of(part_value(sh.s, part))] if ok else [Atom("ptouch"), Atom(part)]
